@@ -45,6 +45,9 @@ func runC13(c *vk.Ctx) {
 	tol18 := bfScaled(bigOne, 18)
 	tol32 := bfScaled(bigOne, 32)
 
+	// a result handed out earlier belongs to its caller: later calls into the library must not change it
+	var keptExp2, keptLog osmomath.BigDec
+	var keptExp2Str, keptLogStr, keptExp2Desc, keptLogDesc string
 	// ---------------------------------------------------------------- Exp2
 	c.Cases("exp2", c.N(40000, 2500000), func(i int, r *vk.Rng) {
 		var xi *big.Int
@@ -83,6 +86,11 @@ func runC13(c *vk.Ctx) {
 			c.Violate("C13.exp2_error", map[string]any{"operand_changed": true}, "Exp2 changed its operand from %s/1e36 to %s/1e36", xi, xop.BigInt())
 			return
 		}
+		if keptExp2Str != "" && keptExp2.String() != keptExp2Str {
+			c.Violate("C13.exp2_error", map[string]any{"earlier_result_changed": true}, "the value returned earlier by %s was %s; after the call Exp2(%s/1e36) it reads %s", keptExp2Desc, keptExp2Str, xi, keptExp2)
+			return
+		}
+		keptExp2, keptExp2Str, keptExp2Desc = got, got.String(), fmt.Sprintf("Exp2(%s/1e36)", xi)
 		want := bfExp2(bfScaled(xi, 36))
 		g := bfScaled(got.BigInt(), 36)
 		rel := bfAbs(bfNew().Sub(bfNew().Quo(g, want), bf(1)))
@@ -171,6 +179,44 @@ func runC13(c *vk.Ctx) {
 			// a caller that uses its value again gets the logarithm of something else
 			c.Violate("C13.log_error", map[string]any{"fn": sig["fn"], "operand_changed": true}, "%s changed its operand from %s/1e36 to %s/1e36", sig["fn"], xi, x.BigInt())
 			return
+		}
+		if keptLogStr != "" && keptLog.String() != keptLogStr {
+			c.Violate("C13.log_error", map[string]any{"fn": sig["fn"], "earlier_result_changed": true}, "the value returned earlier by %s was %s; after a call of %s it reads %s", keptLogDesc, keptLogStr, sig["fn"], keptLog)
+			return
+		}
+		keptLog, keptLogStr, keptLogDesc = got, got.String(), fmt.Sprintf("%s(%s/1e36)", sig["fn"], xi)
+		if kind == 3 && r.Intn(2) == 0 {
+			// the owner of the base goes on computing with it in place, then somebody asks for a logarithm to the base
+			// it has become (with that object or with a fresh equal one)
+			bObj := mkBD(baseI)
+			var again osmomath.BigDec
+			recB, _ := vk.Guard(func() { x.CustomBaseLog(bObj) })
+			if recB == nil {
+				nb := new(big.Int).Add(new(big.Int).Mul(baseI, big.NewInt(2+r.I64n(7))), big.NewInt(r.I64n(1000)))
+				if d := new(big.Int).Sub(nb, e36); d.Abs(d).Cmp(pow10(6)) >= 0 && nb.BitLen() <= 1024 {
+					bObj.MulMut(mkBD(new(big.Int).Quo(new(big.Int).Mul(nb, e36), baseI))) // roughly nb; whatever it is now is the base
+					nbNow := bObj.BigInt()
+					if d := new(big.Int).Sub(nbNow, e36); d.Abs(d).Cmp(pow10(6)) >= 0 {
+						arg := bObj
+						if r.Bool() {
+							arg = mkBD(nbNow)
+						}
+						recC, _ := vk.Guard(func() { again = x.CustomBaseLog(arg) })
+						if recC == nil {
+							lb2 := bfLog2(bfScaled(nbNow, 36))
+							want2 := bfNew().Quo(bfLog2(xf), lb2)
+							t2 := bfNew().Add(tol32, bfNew().Mul(bfAbs(want2), tol32))
+							t2.Quo(t2, bfAbs(lb2))
+							t2.Add(t2, bfScaled(big.NewInt(2), 36))
+							if d2 := bfAbs(bfNew().Sub(bfScaled(again.BigInt(), 36), want2)); d2.Cmp(t2) > 0 {
+								c.Violate("C13.log_error", map[string]any{"fn": "CustomBaseLog", "base_object_reused": true}, "CustomBaseLog(%s/1e36, base %s/1e36) = %s after an earlier call with a base object that has since been changed in place (it was %s/1e36), reference %s", xi, nbNow, again, baseI, want2.Text('f', 40))
+								return
+							}
+							c.Class("log|CustomBaseLog|base-object-reused")
+						}
+					}
+				}
+			}
 		}
 		diff := bfAbs(bfNew().Sub(bfScaled(got.BigInt(), 36), want))
 		ratio := bfF64(bfNew().Quo(diff, tol))
